@@ -177,144 +177,217 @@ Definition into_val (m : mval) : option mval :=
   | _ => None
   end.
 
-Notation "'do' '(' v ',' en ')' '<-' r ';' k" :=
-  (match r with ONorm v en => k | ORet v' en' => ORet v' en' | OPanic => OPanic | OType => OType end)
+(* ------------------------------------------------------------------------------------------------------------------
+   Evaluation produces a decision tree: a leaf is an outcome; [TRes r k] asks for the result of a value-layer operation
+   that may panic (unit mismatch, i64 overflow) and continues with [k] on success; [TIf b x y] branches on a boolean
+   (a comparison of time stamps or floats, a boolean payload).  [flatten] turns the tree into the ordinary result: it
+   scrutinises [r] / [b] exactly where the tree says.  Writing the evaluator against the tree keeps its own control
+   flow independent of operation results, so that running it on a state whose leaves are variables never gets stuck
+   (symbolic execution by computation). *)
+Inductive tree (X : Type) : Type :=
+| Leaf (x : X)
+| TRes (A : Type) (r : res A) (k : A -> tree X)
+| TIf (b : bool) (x y : tree X).
+Arguments Leaf {X} x.
+Arguments TRes {X A} r k.
+Arguments TIf {X} b x y.
+
+Fixpoint tmap {X Y} (f : X -> tree Y) (t : tree X) : tree Y :=
+  match t with
+  | Leaf x => f x
+  | TRes r k => TRes r (fun a => tmap f (k a))
+  | TIf b x y => TIf b (tmap f x) (tmap f y)
+  end.
+(* sequencing on outcomes: only a normal completion continues *)
+Definition tbind (t : tree outcome) (k : mval -> env -> tree outcome) : tree outcome :=
+  tmap (fun o => match o with ONorm v en => k v en | o' => Leaf o' end) t.
+Notation "'do' '(' v ',' en ')' '<-' r ';' k" := (tbind r (fun v en => k))
   (at level 200, v name, en name, r at level 100, k at level 200).
 
-Fixpoint eval (e : mexpr) (en : env) {struct e} : outcome :=
+(* the result of a value-layer operation as a tree: the operations that can panic are asked for explicitly; every other
+   application of the operator table is a leaf.  [prim_tree_ok] (Proofs/MiniRustEmb.v): flattening gives [apply_op]. *)
+Definition tq (r : res (@quantity F)) (f : @quantity F -> val) : tree rv := TRes r (fun q => Leaf (RVal (f q))).
+Definition prim_tree (o : Z) (ws : list val) : tree rv :=
+  match ws with
+  | [VT a; VT b] =>
+      if (o =? 1) || (o =? 5) then TRes (iadd a b) (fun z => Leaf (RVal (VT z)))
+      else if (o =? 2) || (o =? 6) then TRes (isub a b) (fun z => Leaf (RVal (VT z)))
+      else Leaf (apply_op c o ws)
+  | [VQ a; VQ b] =>
+      if (o =? 1) || (o =? 5) then tq (qadd c a b) VQ
+      else if (o =? 2) || (o =? 6) then tq (qsub c a b) VQ
+      else Leaf (apply_op c o ws)
+  | [VDat t1 (VQ a); VDat t2 (VQ b)] =>
+      if (o =? 1) || (o =? 5) then tq (qadd c a b) (fun q => VDat (tmax_ge t1 t2) (VQ q))
+      else if (o =? 2) || (o =? 6) then tq (qsub c a b) (fun q => VDat (tmax_ge t1 t2) (VQ q))
+      else Leaf (apply_op c o ws)
+  | [VU a; VU b] =>
+      if o =? O_ASSERT_OK then TRes (assert_ok c a b) (fun _ => Leaf (RVal VUnit))
+      else if o =? O_ASSERT_NOT_OK then TRes (assert_not_ok c a b) (fun _ => Leaf (RVal VUnit))
+      else Leaf (apply_op c o ws)
+  | [VQ p; VQ v; VQ a] =>
+      if o =? O_S_NEW then TRes (snew c p v a) (fun s => Leaf (RVal (VS s))) else Leaf (apply_op c o ws)
+  | _ => Leaf (apply_op c o ws)
+  end.
+Definition of_rv_t (t : tree rv) (en : env) : tree outcome := tmap (fun r => Leaf (of_rv r en)) t.
+
+Section Helpers.
+Variable ev : mexpr -> env -> tree outcome.
+Fixpoint eval_list (l : list mexpr) (acc : list mval) (en : env) (k : list mval -> env -> tree outcome) {struct l} : tree outcome :=
+  match l with
+  | [] => k (rev acc) en
+  | a :: r => do (v, en1) <- ev a en; eval_list r (v :: acc) en1 k
+  end.
+Fixpoint eval_fields (l : list (string * mexpr)) (acc : list (string * mval)) (en : env) {struct l} : tree outcome :=
+  match l with
+  | [] => Leaf (ONorm (MRec (rev acc)) en)
+  | (f, a) :: r => do (v, en1) <- ev a en; eval_fields r ((f, v) :: acc) en1
+  end.
+Fixpoint eval_arms (v : mval) (en1 : env) (l : list (pat * mexpr)) {struct l} : tree outcome :=
+  match l with
+  | [] => Leaf OType
+  | (p, body) :: r =>
+      match pmatch p v with
+      | Some bs => do (w, en2) <- ev body (bs ++ en1); Leaf (ONorm w (skipn (List.length bs) en2))
+      | None => eval_arms v en1 r
+      end
+  end.
+End Helpers.
+
+(* `for x in items { body }`: the loop variable is bound for one iteration at a time *)
+Fixpoint for_loop (body : env -> tree outcome) (x : string) (items : list mval) (en : env) {struct items} : tree outcome :=
+  match items with
+  | [] => Leaf (ONorm MTup0 en)
+  | it :: r => do (w, en2) <- body ((x, it) :: en); for_loop body x r (skipn 1 en2)
+  end.
+
+Definition ret1 (v : mval) (en : env) : tree outcome := Leaf (ONorm v en).
+Definition opt_leaf (o : option mval) (en : env) : tree outcome :=
+  match o with Some w => Leaf (ONorm w en) | None => Leaf OType end.
+
+Fixpoint eval (e : mexpr) (en : env) {struct e} : tree outcome :=
   match e with
-  | ELit v => ONorm (lift v) en
-  | EVar x => match lookup x en with Some v => ONorm v en | None => OType end
-  | EField a f =>
-      do (v, en1) <- eval a en;
-      match field_of v f with Some w => ONorm w en1 | None => OType end
+  | ELit v => ret1 (lift v) en
+  | EVar x => opt_leaf (lookup x en) en
+  | EField a f => do (v, en1) <- eval a en; opt_leaf (field_of v f) en1
   | EOp o args =>
-      (fix go (l : list mexpr) (acc : list mval) (en : env) {struct l} : outcome :=
-         match l with
-         | [] => match lower_all (rev acc) with
-                 | Some vs => of_rv (apply_op c o vs) en
-                 | None => OType end
-         | a :: r => do (v, en1) <- eval a en; go r (v :: acc) en1
-         end) args [] en
+      eval_list (fun a0 en0 => eval a0 en0) args [] en (fun vs en1 =>
+        match lower_all vs with
+        | Some ws => of_rv_t (prim_tree o ws) en1
+        | None => Leaf OType
+        end)
   | EPow a b =>
       do (x, en1) <- eval a en;
       do (y, en2) <- eval b en1;
-      match x, y with MV (VF p), MV (VF q) => ONorm (MV (VF (fpow p q))) en2 | _, _ => OType end
-  | EOk a => do (v, en1) <- eval a en; ONorm (MOk v) en1
-  | EErr a => do (v, en1) <- eval a en; ONorm (MErr v) en1
-  | ESome a => do (v, en1) <- eval a en; ONorm (MSome v) en1
-  | ENone => ONorm MNone en
-  | EUnit => ONorm MTup0 en
-  | EErrFromNone => ONorm (MErrV FromNone) en
-  | ERec fs =>
-      (fix go (l : list (string * mexpr)) (acc : list (string * mval)) (en : env) {struct l} : outcome :=
-         match l with
-         | [] => ONorm (MRec (rev acc)) en
-         | (f, a) :: r => do (v, en1) <- eval a en; go r ((f, v) :: acc) en1
-         end) fs [] en
-  | EArr es =>
-      (fix go (l : list mexpr) (acc : list mval) (en : env) {struct l} : outcome :=
-         match l with
-         | [] => ONorm (MArr (rev acc)) en
-         | a :: r => do (v, en1) <- eval a en; go r (v :: acc) en1
-         end) es [] en
-  | EVariant n => ONorm (MVariant n) en
-  | EInto a =>
-      do (v, en1) <- eval a en;
-      match into_val v with Some w => ONorm w en1 | None => OType end
+      match x, y with MV (VF p), MV (VF q) => ret1 (MV (VF (fpow p q))) en2 | _, _ => Leaf OType end
+  | EOk a => do (v, en1) <- eval a en; ret1 (MOk v) en1
+  | EErr a => do (v, en1) <- eval a en; ret1 (MErr v) en1
+  | ESome a => do (v, en1) <- eval a en; ret1 (MSome v) en1
+  | ENone => ret1 MNone en
+  | EUnit => ret1 MTup0 en
+  | EErrFromNone => ret1 (MErrV FromNone) en
+  | ERec fs => eval_fields (fun a0 en0 => eval a0 en0) fs [] en
+  | EArr es => eval_list (fun a0 en0 => eval a0 en0) es [] en (fun vs en1 => ret1 (MArr vs) en1)
+  | EVariant n => ret1 (MVariant n) en
+  | EInto a => do (v, en1) <- eval a en; opt_leaf (into_val v) en1
   | EIsErr a =>
       do (v, en1) <- eval a en;
-      match v with MErr _ => ONorm (MV (VB true)) en1 | MOk _ => ONorm (MV (VB false)) en1 | _ => OType end
+      match v with MErr _ => ret1 (MV (VB true)) en1 | MOk _ => ret1 (MV (VB false)) en1 | _ => Leaf OType end
   | EUnwrap a =>
       do (v, en1) <- eval a en;
-      match v with MSome w | MOk w => ONorm w en1 | MNone | MErr _ => OPanic | _ => OType end
+      match v with MSome w | MOk w => ret1 w en1 | MNone | MErr _ => Leaf OPanic | _ => Leaf OType end
   | ETry a =>
       do (v, en1) <- eval a en;
-      match v with MOk w => ONorm w en1 | MErr w => ORet (MErr w) en1 | _ => OType end
+      match v with MOk w => ret1 w en1 | MErr w => Leaf (ORet (MErr w) en1) | _ => Leaf OType end
   | ECmp o a b =>
       do (x, en1) <- eval a en;
       do (y, en2) <- eval b en1;
-      match x, y with MV p, MV q => of_rv (cmp_val o p q) en2 | _, _ => OType end
+      match x, y with MV p, MV q => Leaf (of_rv (cmp_val o p q) en2) | _, _ => Leaf OType end
   | EAssertEq a b =>
       do (x, en1) <- eval a en;
       do (y, en2) <- eval b en1;
       match x, y with
-      | MV p, MV q => match eq_val c p q with RVal (VB true) => ONorm MTup0 en2 | RVal (VB false) => OPanic | RPanic => OPanic | _ => OType end
-      | _, _ => OType
+      | MV p, MV q =>
+          match eq_val c p q with
+          | RVal (VB t) => TIf t (ret1 MTup0 en2) (Leaf OPanic)
+          | RPanic => Leaf OPanic
+          | _ => Leaf OType
+          end
+      | _, _ => Leaf OType
       end
   | ELet p a body =>
       do (v, en1) <- eval a en;
       match pmatch p v with
-      | Some bs => do (w, en2) <- eval body (bs ++ en1); ONorm w (skipn (List.length bs) en2)
-      | None => OType
+      | Some bs => do (w, en2) <- eval body (bs ++ en1); ret1 w (skipn (List.length bs) en2)
+      | None => Leaf OType
       end
   | ESeq a b => do (v, en1) <- eval a en; eval b en1
   | EAssign l a =>
       do (v, en1) <- eval a en;
-      match lval_set l v en1 with Some en2 => ONorm MTup0 en2 | None => OType end
+      match lval_set l v en1 with Some en2 => ret1 MTup0 en2 | None => Leaf OType end
   | EOpAssign l o a =>
       do (v, en1) <- eval a en;
       match lval_get l en1 with
       | Some old =>
           match lower old, lower v with
           | Some x, Some y =>
-              match apply_op c o [x; y] with
-              | RVal w => match lval_set l (lift w) en1 with Some en2 => ONorm MTup0 en2 | None => OType end
-              | RPanic => OPanic
-              | RType => OType
-              end
-          | _, _ => OType
+              tmap (fun r => match r with
+                             | RVal w => match lval_set l (lift w) en1 with Some en2 => ret1 MTup0 en2 | None => Leaf OType end
+                             | RPanic => Leaf OPanic
+                             | RType => Leaf OType
+                             end) (prim_tree o [x; y])
+          | _, _ => Leaf OType
           end
-      | None => OType
+      | None => Leaf OType
       end
   | EIf cnd th el =>
       do (v, en1) <- eval cnd en;
       match v with
-      | MV (VB true) => eval th en1
-      | MV (VB false) => eval el en1
-      | _ => OType
+      | MV (VB t) => TIf t (eval th en1) (eval el en1)
+      | _ => Leaf OType
       end
   | EMatch a arms =>
       do (v, en1) <- eval a en;
-      (fix go (l : list (pat * mexpr)) {struct l} : outcome :=
-         match l with
-         | [] => OType
-         | (p, body) :: r =>
-             match pmatch p v with
-             | Some bs => do (w, en2) <- eval body (bs ++ en1); ONorm w (skipn (List.length bs) en2)
-             | None => go r
-             end
-         end) arms
+      eval_arms (fun a0 en0 => eval a0 en0) v en1 arms
   | EFor x coll body =>
       do (v, en1) <- eval coll en;
       match v with
-      | MArr items =>
-          (fix go (l : list mval) (en : env) {struct l} : outcome :=
-             match l with
-             | [] => ONorm MTup0 en
-             | it :: r => do (w, en2) <- eval body ((x, it) :: en); go r (skipn 1 en2)
-             end) items en1
-      | _ => OType
+      | MArr items => for_loop (eval body) x items en1
+      | _ => Leaf OType
       end
-  | EReturn a => do (v, en1) <- eval a en; ORet v en1
+  | EReturn a => do (v, en1) <- eval a en; Leaf (ORet v en1)
   | ECatch a =>
-      match eval a en with
-      | ORet v en1 => ONorm v (skipn (List.length en1 - List.length en) en1)
-      | o => o
-      end
+      tmap (fun o => match o with
+                     | ORet v en1 => Leaf (ONorm v (skipn (List.length en1 - List.length en) en1))
+                     | o' => Leaf o'
+                     end) (eval a en)
   end.
+
+(* the ordinary result of a tree *)
+Fixpoint flatten {X} (t : tree X) : res X :=
+  match t with
+  | Leaf x => Ok x
+  | TRes r k => match r with Ok a => flatten (k a) | Panic => Panic end
+  | TIf b x y => if b then flatten x else flatten y
+  end.
+Definition flatten_rv (t : tree (@rv F)) : @rv F := match flatten t with Ok r => r | Panic => RPanic end.
 
 (* a function body run on a receiver [self] (a struct) and the values its getters return at this moment.
    None: the translated program is ill-typed for these arguments (never, for the current source and embedded
    model states: the generated theorems show it). *)
-Definition run_fn (body : mexpr) (self : mval) (inputs : env) : option (res (mval * mval)) :=
+Definition finish (n_inputs : nat) (o : outcome) : option (res (mval * mval)) :=
   let fin (v : mval) (en : env) :=
-    match lookup "self" en with Some s => Some (Ok (s, v)) | None => None end in
-  match eval body (("self", self) :: inputs) with
-  | ONorm v en => fin v (skipn (List.length en - S (List.length inputs)) en)
-  | ORet v en => fin v (skipn (List.length en - S (List.length inputs)) en)
+    match lookup "self" (skipn (List.length en - S n_inputs) en) with Some s => Some (Ok (s, v)) | None => None end in
+  match o with
+  | ONorm v en => fin v en
+  | ORet v en => fin v en
   | OPanic => Some Panic
   | OType => None
+  end.
+Definition run_fn (body : mexpr) (self : mval) (inputs : env) : option (res (mval * mval)) :=
+  match flatten (eval body (("self", self) :: inputs)) with
+  | Ok o => finish (List.length inputs) o
+  | Panic => Some Panic
   end.
 
 End MiniRust.
